@@ -89,6 +89,7 @@ fn check(ctx: &Ctx, c: &Case, label: &str, counting: bool) -> Result<(), Fail> {
 	let bytes = c.raw.serialize();
 	let plain = m.encode();
 	let extra_bytes = m.extra.pre + m.extra.post + m.extra.item + m.extra.fstart + m.extra.fend;
+	let se_extra = m.extra.gstart + m.extra.gend;
 	if counting {
 		ctx.eval();
 		let _ = classify(ctx, m);
@@ -105,6 +106,9 @@ fn check(ctx: &Ctx, c: &Case, label: &str, counting: bool) -> Result<(), Fail> {
 		}
 		if extra_bytes > 0 {
 			ctx.class("extra_trailing_bytes");
+		}
+		if se_extra > 0 {
+			ctx.class("extra_bytes_on_game_start_or_end");
 		}
 		if (c.in_frame > 0 || (extra_bytes > 0 && !m.frames.is_empty())) && !m.frames.is_empty() {
 			ctx.nontrivial(rt::hash_bytes(&bytes));
@@ -124,6 +128,21 @@ fn check(ctx: &Ctx, c: &Case, label: &str, counting: bool) -> Result<(), Fail> {
 	diff_games(&g, &g0, &CmpOpts { frames: true, hash: true, quirks: !c.newer }).map_err(|e| fail("differs_from_plain", format!("parse differs from the parse without unknown events: {}", e)))?;
 	// (b) model: every known field has the model's value (extra bytes ignored), raw blocks retained
 	game_matches_model(&g, m).map_err(|e| fail("differs_from_model", e))?;
+	// (c) the reader's options must not matter to that: hashing, and skip-frames when the disturbed file
+	// is still a finished replay (a Game End is its last event)
+	let last_is_end = c.raw.events.last().map_or(false, |e| e.code == spec::EV_GAME_END);
+	if last_is_end && c.raw.tail.is_empty() {
+		if counting {
+			ctx.class("skip_frames_also_checked");
+		}
+		let hash = bytes.len() % 2 == 0;
+		let sk = match rt::slp_read(&bytes, true, hash) {
+			rt::Out::Ok(g) => g,
+			rt::Out::Err(e) => return Err(fail("skip_read_err", format!("skip-frames read of the disturbed file rejected: {}", e))),
+			rt::Out::Panic(p) => return Err(fail(&format!("skip panic~{}", rt::panic_site(&p)), p)),
+		};
+		diff_games(&sk, &g, &CmpOpts { frames: false, hash: false, quirks: false }).map(|_| ()).or_else(|e| if e.contains("gecko") { Ok(()) } else { Err(e) }).map_err(|e| fail("skip_differs", format!("skip-frames parse differs in start/end/metadata: {}", e)))?;
+	}
 	Ok(())
 }
 
